@@ -367,7 +367,8 @@ def labels_have_break(F):
 # --------------------------------------------------------------------------
 # formulas
 # --------------------------------------------------------------------------
-ODD_LABELS = ["a", "b_1", "c^2", "d_1^2", "e^2_1", "{f_1}", "{g}_{1}", "h_{1,2}^{3}", "_u", "^v", "x y",
+ODD_LABELS = ["a_{2^k}", "s_{n^2}", "y^{a_b}", "t^{u_{1}}_{2}",      # scripts nested inside scripts
+              "a", "b_1", "c^2", "d_1^2", "e^2_1", "{f_1}", "{g}_{1}", "h_{1,2}^{3}", "_u", "^v", "x y",
               "\\alpha_{1}", "k_", "f(1)=2", "e[1]_{1,2}", "p+q", "m\\lor n", "1", "{{r_{{1,1}}}}^{i}",
               "{s_{1}}^2", "X_{p_{1,1}}^1", "(f_{1}(2))_{3}", "x2", "x_2", "è", "中_1", "w'", "a",
               "t_{\\overline{z}}", "12x", "n\\geq 1", "q=3", "G_1(2,3)"]
@@ -543,7 +544,7 @@ def family_formulas(ck):
     return out
 
 
-LABEL_POOL = ["a", "b_1", "c^2", "d_{1,2}", "{e_1}^2", "x_{10}", "f(2)", "y^{3}_{1}", "x7", "P_{1,3}", "e_{2,1}"]
+LABEL_POOL = ["a_{2^k}", "y^{a_b}", "a", "b_1", "c^2", "d_{1,2}", "{e_1}^2", "x_{10}", "f(2)", "y^{3}_{1}", "x7", "P_{1,3}", "e_{2,1}"]
 
 
 def random_formulas(ck):
